@@ -13,7 +13,17 @@ Inductive pure : expr -> Prop :=
 | P_bool b : pure (EBool b)
 | P_var x : pure (EVar x)
 | P_lam ps b : pure (ELam ps b)
-| P_pap f k u args : pure (ECall f (S k) u args).
+| P_pap f k u args : pure (ECall f (S k) u args)
+(* effect-free, always terminating constructions over such arguments *)
+| P_bin op a b : pure a -> pure b -> pure (EBin op a b)
+| P_eq neg a b : pure a -> pure b -> pure (EEq neg a b)
+| P_not a : pure a -> pure (ENot a)
+| P_tuple es : Forall pure es -> pure (ETuple es)
+| P_record n fs es : Forall pure es -> pure (ERecord n fs es)
+| P_field e f : pure e -> pure (EField e f)
+| P_ctor0 u c : pure (ECtor u c None)
+| P_ctor1 u c a : pure a -> pure (ECtor u c (Some a))
+| P_slice es : Forall pure es -> pure (ESlice es).
 
 Definition two_or_three (n:nat) : Prop := n = 2 \/ n = 3.
 
@@ -119,12 +129,43 @@ Inductive peval (env:genv) : nat -> expr -> gval -> Prop :=
 | PE_pap k f m u args :
     peval env k (ECall f (S m) u args)
           (GVClo env (rnames (S m) 0)
-                 [ret_stmt u (GCall (GVar f) (compile_list k args ++ map GVar (rnames (S m) 0)))]).
-
-Inductive pevals (env:genv) : nat -> list expr -> list gval -> Prop :=
+                 [ret_stmt u (GCall (GVar f) (compile_list k args ++ map GVar (rnames (S m) 0)))])
+| PE_arith k op a b ga gb gv :
+    op <> OAnd -> op <> OOr -> peval env k a ga -> peval env (k + nv a) b gb ->
+    arith gops op ga gb = Some gv -> peval env k (EBin op a b) gv
+| PE_and_false k a b : peval env k a (GVBool false) -> peval env k (EBin OAnd a b) (GVBool false)
+| PE_and_true k a b y :
+    peval env k a (GVBool true) -> peval env (k + nv a) b (GVBool y) -> peval env k (EBin OAnd a b) (GVBool y)
+| PE_or_true k a b : peval env k a (GVBool true) -> peval env k (EBin OOr a b) (GVBool true)
+| PE_or_false k a b y :
+    peval env k a (GVBool false) -> peval env (k + nv a) b (GVBool y) -> peval env k (EBin OOr a b) (GVBool y)
+| PE_eq k neg a b ga gb r :
+    peval env k a ga -> peval env (k + nv a) b gb -> gval_eq ga gb = Some r ->
+    peval env k (EEq neg a b) (GVBool (if neg then negb r else r))
+| PE_not k a b : peval env k a (GVBool b) -> peval env k (ENot a) (GVBool (negb b))
+| PE_tuple k es gvs :
+    pevals env k es gvs -> two_or_three (List.length es) ->
+    peval env k (ETuple es) (GVStruct (tuple_struct (List.length gvs)) (combine tuple_fields gvs))
+| PE_record k n fs es gvs :
+    pevals env k es gvs -> List.length fs = List.length es ->
+    peval env k (ERecord n fs es) (GVStruct n (combine fs gvs))
+| PE_field k e f tn gfs gv :
+    peval env k e (GVStruct tn gfs) -> lookup f gfs = Some gv -> peval env k (EField e f) gv
+| PE_ctor0 k u c :
+    ctor_ok u c false -> lookup (ctor_name u c) env = None ->
+    peval env k (ECtor u c None) (GVStruct (case_struct u c) [])
+| PE_ctor1 k u c a ga :
+    ctor_ok u c true -> lookup (ctor_name u c) env = None -> peval env k a ga ->
+    peval env k (ECtor u c (Some a)) (GVStruct (case_struct u c) [("Value"%string, ga)])
+| PE_slice k es gvs : pevals env k es gvs -> peval env k (ESlice es) (GVSlice gvs)
+with pevals (env:genv) : nat -> list expr -> list gval -> Prop :=
 | PEs_nil k : pevals env k [] []
 | PEs_cons k e es gv gvs :
     peval env k e gv -> pevals env (k + nv e) es gvs -> pevals env k (e :: es) (gv :: gvs).
+
+Scheme peval_mind := Minimality for peval Sort Prop
+  with pevals_mind := Minimality for pevals Sort Prop.
+Combined Scheme peval_mutind from peval_mind, pevals_mind.
 
 Inductive vrel : val -> gval -> Prop :=
 | VR_int z : vrel (VInt z) (GVInt z)
